@@ -259,6 +259,8 @@ def main(argv=None):
             errors.append(f"native {spec['name']}: {rep['error']} {rep.get('stderr', '')[-400:]}")
         for f in rep.get("failures", []):
             native_fail.append(dict(native=spec["name"], kind=rep["kind"], failure=f))
+        for sk in rep.get("skipped", []) or []:
+            print(f"  VALIDATION-SKIPPED {sk.get('function')}: the interpreter could not run it concretely ({sk.get('why', '')[:120]})")
 
     # ---- violations: refuted obligations (+ bounded failures), replayed on the real code
     lines = []
